@@ -270,6 +270,49 @@ def run(ck, prog, ctx):
                 ck.ob("ROLE", "filter_new/unchanged", not steps, "OmimDiseaseFilter::new stores the query %s" % ("as given" if not steps else "after `%s`: names that do not contain the caller's query are returned" % ", ".join(steps)), where=new.where())
 
     # ---- the arena's id iterator answer each protocol method with the inner iterator's SAME method
+    # ------------------------------------------------------------------ TABLE: slot numbers are not narrowed
+    # the arena may hold one term per id of the 7-digit id space (10^7 slots): a slot number needs 24 bits.  An `as` cast of a slot number to
+    # a narrower integer wraps silently: later ids resolve to the placeholder or to ANOTHER term.
+    from props.shared import INT_BITS
+    need_bits = 24
+    narrow = []
+    n_casts = 0
+    for b_ in prog.production():
+        if not (b_.id.startswith(ARENA + "::") or b_.id.startswith("<" + ARENA + " as ")):
+            continue
+        for fb_ in prog.family(b_):
+            for _, st_ in fb_.stmts():
+                if st_.k == "assign" and st_.rv["k"] == "cast" and "IntToInt" in st_.rv.get("kind", ""):
+                    n_casts += 1
+                    src_ = fb_.locals[st_.rv["op"].place.local]["s"] if st_.rv["op"].place is not None else (st_.rv["op"].const or {}).get("ty", "?")
+                    dst_ = st_.rv.get("ty", "?")
+                    if INT_BITS.get(dst_, 64) < need_bits and INT_BITS.get(src_, 0) > INT_BITS.get(dst_, 64) and st_.rv["op"].kind != "const":
+                        narrow.append((fb_, st_, src_, dst_))
+    ck.ob("TABLE", "slot/width", not narrow, "no slot number or id index of the arena is narrowed below %d bits (%d integer casts examined)" % (need_bits, n_casts) if not narrow else
+          "%s narrows a %s to %s with `as`: the arena can hold 10^7 terms, so slot numbers beyond %d wrap - ids then resolve to the placeholder (term reported absent) or to another term" % (narrow[0][0].short, narrow[0][2], narrow[0][3], 2 ** INT_BITS.get(narrow[0][3], 0) - 1),
+          where=narrow[0][0].where(narrow[0][1].line) if narrow else None)
+
+    # ------------------------------------------------------------------ STORE: a term handed to the builder reaches the arena
+    ck.rule("STORE", "every Builder function that stores terms passes Arena::insert (directly or through another storing Builder function) on every path that returns normally: no id-dependent gate drops a term")
+    from engines import check_required_steps
+    ins_id = ARENA + "::insert"
+    storing = set()
+    bl = [b_ for b_ in prog.production() if b_.kind == "AssocFn" and (b_.impl_self or {}).get("adt") == "ontology::builder::Builder"]
+    changed = True
+    while changed:
+        changed = False
+        for b_ in bl:
+            if b_.id in storing:
+                continue
+            if any(t_.callee.res == ins_id or t_.callee.res in storing for fb_ in prog.family(b_) for _, t_ in fb_.calls()):
+                storing.add(b_.id)
+                changed = True
+    for bid in sorted(storing):
+        b_ = prog.bodies[bid]
+        # the direct storing step of THIS function (its callees are judged on their own)
+        check_required_steps(ck, "STORE", prog, b_, [("store the term(s) in the arena", lambda t_, _me=bid: t_.callee.res == ins_id or (t_.callee.res in storing and t_.callee.res != _me))])
+    ck.floor("STORE", "Builder functions that store terms", len(storing), 2, soft=True)
+
     ck.rule("SIBLING", "an iterator wrapper's next / next_back / len / size_hint delegates to the same method of the inner iterator (DESIGN 3.15)")
     from engines import check_iterator_delegations
     check_iterator_delegations(ck, "SIBLING", prog, r"^src/ontology/termarena\.rs$")
